@@ -4,8 +4,8 @@ Content models
     cm   ::= ('EMPTY',) | ('ANY',) | ('MIXED', [name...]) | ('CH', node)
     node ::= ('n', name, occ) | ('s', [node...], occ) | ('c', [node...], occ)        occ in '', '?', '*', '+'
 Membership of a child-name sequence in a 'CH' model is decided twice: position-set/Glushkov simulation, and re.fullmatch on a
-one-letter-per-name translation (sequences of up to 5 names) or Brzozowski derivatives (longer ones, where a backtracking matcher can
-blow up); `Membership.accepts` returns (verdict, witnesses_agree).
+one-letter-per-name translation (sequences of up to 5 names, models without a repeated nullable group) or Brzozowski derivatives (the rest,
+where a backtracking matcher blows up); `Membership.accepts` returns (verdict, witnesses_agree).
 
 Attribute declarations   {'name','type','enum','kind','dflt','loc'}   type in ATT_TYPES, kind in DEFAULT_KINDS
 Documents                node ::= ('e', name, [(attname, raw)], [node...], emptytag) | ('t', text) | ('ws', s) | ('c', s)
@@ -196,6 +196,18 @@ def accepts_deriv(term, seq, memo):
         if t == NUL: return False
     return t_nullable(t)
 
+def star_of_nullable(node):
+    """-> (nullable, risky): risky = some repeated group has a nullable body, e.g. (a*,b?)* -- a backtracking matcher then explores
+    a super-exponential number of empty iterations even on five-letter subjects (measured: minutes per fullmatch)"""
+    kind, body, occ = node
+    if kind == 'n': nl, risky = False, False
+    else:
+        parts = [star_of_nullable(x) for x in body]
+        risky = any(r for _, r in parts)
+        nl = all(n for n, _ in parts) if kind == 's' else any(n for n, _ in parts)
+        if occ in ('*', '+') and nl: risky = True
+    return (nl or occ in ('?', '*')), risky
+
 class Membership:
     """decides membership of child-name sequences in a content model, twice"""
     def __init__(self, cm, declared):
@@ -205,6 +217,7 @@ class Membership:
             self.letter = letters_for(sorted(set(cm_names(cm[1])) | set(self.declared)))
             self.rx = re.compile(node_regex(cm[1], self.letter))
             self.term = term_of(cm[1]); self.dmemo = {}
+            self.use_re = not star_of_nullable(cm[1])[1]
     def accepts(self, seq):
         """-> (member, witnesses_agree); names outside the alphabet are never members of a CH/MIXED model"""
         cm = self.cm
@@ -213,7 +226,7 @@ class Membership:
         if cm[0] == 'MIXED': return (all(n in cm[1] for n in seq), True)
         a = self.g.accepts(seq)
         if any(n not in self.letter for n in seq): return (False, not a)
-        if len(seq) > 5:           # longer sequence: derivative matcher instead of the backtracking one (see above; nested stars
+        if len(seq) > 5 or not self.use_re:   # longer sequence, or a repeated nullable group: derivative matcher instead of the backtracking one (see above; nested stars
                                    # such as (((a*|a*)*)*)* already cost minutes at length 7)
             b = accepts_deriv(self.term, seq, self.dmemo)
         else:
